@@ -59,7 +59,7 @@ def run_case(spec):
             return
         listed = {(w['addr'], int(str(w['size']).rstrip('b')), w['cond']) for w in wps}
         want = {(a, s, c) for (a, s, c, k) in model.values()}
-        S.tolerate_extra_int3 = local_wp is not None
+        S.tolerate_extra_int3 = bool(local_wps)
         v.count('register_images_decoded', len(drs))
         v.count('commands_checked')
         if listed != want:
@@ -93,7 +93,7 @@ def run_case(spec):
             return v.export()
         r = S.cmd('start', timeout=TMO)
         n_ops = rng.randint(20, 40 if tier == 'quick' else 70)
-        local_wp = None
+        local_wps = {}        # watchpoint number -> local name (several locals of one scope share one end-of-scope breakpoint)
         for step in range(n_ops):
             if S.exited or v.violations:
                 break
@@ -115,17 +115,19 @@ def run_case(spec):
                     r = S.cmd('watch_expr', expr=name, cond=cond)
                     expect_refusal = len(model) >= 4
                 else:
-                    if local_wp is not None:
+                    free_names = [n_ for n_ in ('k', 'acc', 'x') if n_ not in local_wps.values()]
+                    if not free_names:
                         continue
+                    lname = rng.choice(free_names)
                     # a local of `worker` (frame 1 when stopped in site): watch it; it must go away at the end of its scope
                     S.cmd('frame', num=1, mon=False)
-                    ops.append(f'add local expr k {cond}')
+                    ops.append(f'add local expr {lname} {cond}')
                     S.tolerate_extra_int3 = True
-                    r = S.cmd('watch_expr', expr='k', cond=cond)
+                    r = S.cmd('watch_expr', expr=lname, cond=cond)
                     S.cmd('frame', num=0, mon=False)
                     if 'ok' not in r:
                         # a refused request must not leave its end-of-scope companion breakpoint in the text
-                        S.tolerate_extra_int3 = local_wp is not None
+                        S.tolerate_extra_int3 = bool(local_wps)
                         S.cmd('bps', mon={'thr': False, 'dr': False, 'text': True, 'regs': False})
                     size = 8
                     addr = (r.get('ok') or {}).get('addr')
@@ -138,7 +140,7 @@ def run_case(spec):
                         break
                     model[w['num']] = (w['addr'], int(str(w['size']).rstrip('b')), w['cond'], kind)
                     if kind == 'local-expr':
-                        local_wp = w['num']
+                        local_wps[w['num']] = lname
                     v.count('adds')
                 else:
                     v.count('refusals')
@@ -183,9 +185,12 @@ def run_case(spec):
                     r = S.cmd('unwatch_expr', expr='PHASE' if addr == phase_addr else 'GO')
                 if r.get('ok'):
                     model.pop(num, None)
-                    if num == local_wp:
-                        local_wp = None
+                    local_wps.pop(num, None)
                     v.count('removes')
+                    if kind == 'local-expr' and not local_wps:
+                        # the last local watchpoint is gone: its end-of-scope breakpoint must be gone from the text too
+                        S.tolerate_extra_int3 = False
+                        S.cmd('bps', mon={'thr': False, 'dr': False, 'text': True, 'regs': False})
                 elif how == 'expr':
                     v.count('remove_by_expression_found_nothing')     # the watchpoint simply stays: state remains consistent
                 else:
@@ -201,8 +206,7 @@ def run_case(spec):
                     for e in r.get('ev', []):
                         if e.get('ev') == 'watchpoint' and e.get('end_of_scope'):
                             model.pop(e['num'], None)
-                            if e['num'] == local_wp:
-                                local_wp = None
+                            local_wps.pop(e['num'], None)
                             v.count('end_of_scope_stops')
                         elif e.get('ev') == 'watchpoint':
                             v.count('hardware_watchpoint_stops')
@@ -217,7 +221,7 @@ def run_case(spec):
                 # locals are dropped by a restart, globals and raw addresses stay
                 for num in [n for n, (a, s, c, kk) in model.items() if kk == 'local-expr']:
                     model.pop(num)
-                local_wp = None
+                local_wps = {}
                 if not S.exited:
                     check(r, 'after-restart')
         v.case(signature=('c14', idx, tuple(o.split()[0] + o.split()[1] if len(o.split()) > 1 else o for o in ops[:10])),
